@@ -2,6 +2,8 @@ import Blue.Proofs.Books
 import Blue.Proofs.Ledger
 import Blue.Proofs.SetsumGrp
 import Blue.Proofs.VerifyJoin
+import Blue.Proofs.VerifyPair
+import Blue.Proofs.RecoverLedger
 import Blue.Proofs.ConstsTieC04
 /-! # Property C04 — one setsum covers all data: manifest, files and contents always balance
 
@@ -29,7 +31,16 @@ The driver runs `Blue.Books.verify setsumGrp` against the real `ManifestVerifier
 `Blue.Verifier.pass (contentChecker …)` against whole passes of the real `LsmVerifier` on the dumped
 directory and file contents (item hashes computed by the real `sst::Setsum`).
 
-Clauses of the property that are not theorems here: the crash points of C02, and tampers of the
+Recovery (`KeyValueStore::recover`, several write-ahead logs in one open — the state a process
+death between a flush's log rotation and its manifest edit leaves when a client has written to
+the fresh log): the records chain and the last output is the old one plus the recovered files
+(`recover_chains`, `recover_output`); with the output parsed once before the loop they do not
+(`hoisted_recovery_rejected`).  Compensating alterations of TWO digests of one record (`D + x`,
+`O − x`; a collection's `D := 0`, `O := I`) are rejected on the discard, at that record
+(`compensating_pair_rejected`, `gc_discard_erased_rejected`); with the discard comparison inside
+the garbage-collection block they are accepted (`guarded_check_accepts_pair`).
+
+Clauses of the property that are not theorems here: the crash points of C02 in general, and tampers of the
 first record of a fragment (`first_edit_checks` says what is checked there) — see `partial` in
 bin/props.py.  A trivial move writes no manifest edit.
 
@@ -120,6 +131,38 @@ theorem tamper_removed_file_rejected (prev : G) (a b : List (Rec G F)) (r : Rec 
     and removes files 1 and 2 -/
 example : verify intGrp exS 0 (ledger intGrp exS [] exReqs) = true
     ∧ (ledger intGrp exS [] exReqs).map (fun r => (r.rm, r.ad)) = [([], [1]), ([], [2]), ([1, 2], [3])] := by decide
+
+/-- **recovery of several logs chains**: the records `KeyValueStore::recover` writes in one open —
+    one ingest per log whose SST the manifest does not list, in ascending order, each with `I` =
+    the output the manifest records when its turn comes (`recover_one` reads it itself) — pass the
+    chain / balance / discard checks from the output recorded before the open -/
+theorem recover_chains (logs listed : List F) (o : G) :
+    verify g s o (recoverRecs g s listed o logs) = true := Blue.Books.recover_chains g s logs listed o
+
+/-- … and the output recorded last is the old output plus the recovered files -/
+theorem recover_output (logs listed : List F) (o : G) :
+    lastO o (recoverRecs g s listed o logs) = g.add o (total g s (recovered listed logs)) :=
+  Blue.Books.recover_output g s logs listed o
+
+/-- **the reordered recovery** (the manifest's output parsed once, before the loop): two unlisted
+    logs, the first not the zero setsum — the second record starts from the output from before the
+    first and the chain check fails -/
+theorem hoisted_recovery_rejected (o : G) (listed : List F) (f1 f2 : F) (rest : List F)
+    (h1 : f1 ∉ listed) (h2 : f2 ∉ listed ++ [f1]) (hs : s f1 ≠ g.zero) :
+    verify g s o (recoverRecsHoisted g s o listed (f1 :: f2 :: rest)) = false :=
+  Blue.Books.hoisted_recovery_rejected g s o listed f1 f2 rest h1 h2 hs
+
+/-- non-vacuity: output 0, logs whose files sum to 5 and 7 -/
+example : verify intGrp id 0 (recoverRecs intGrp id [] 0 [5, 7]) = true
+    ∧ lastO 0 (recoverRecs intGrp id [] 0 [5, 7]) = 12
+    ∧ (5 : Int) ∉ ([] : List Int) ∧ (7 : Int) ∉ ([] : List Int) ++ [5] ∧ id (5 : Int) ≠ intGrp.zero
+    ∧ verify intGrp id 0 (recoverRecsHoisted intGrp id 0 [] [5, 7]) = false := by decide
+
+/-- where the source stands (`translate/extract.py`): `recover_one` reads `O` per log; the discard
+    comparison of `verify_one` is outside the garbage-collection block -/
+theorem recovery_and_discard_check_from_source :
+    Blue.Generated.lsmtkRecoverReadsOutputPerLog = 1 ∧ Blue.Generated.lsmtkVerifierDiscardCheckUnguarded = 1 :=
+  ⟨Blue.ConstsTie.c04_recover_reads_output_per_log, Blue.ConstsTie.c04_discard_check_unguarded⟩
 
 /-! ## contents: what `LsmVerifier::verify_one` checks -/
 section Contents
@@ -367,6 +410,67 @@ theorem hexdigest_sign_same_value (d : Char) : Blue.Setsum.parsePair '+' d = Blu
   rw [hz]
   cases Blue.Setsum.digitVal d <;> simp
 
+/-- **`compensating_pair_rejected`**: in a fragment the verifier accepts, one record other than the
+    first — second, middle or last — replaced by a record with the same names, `I` and `L` whose
+    recorded `O'`, `D'` still balance (`I = O' + D'`) but whose `D'` is not the discard recorded:
+    rejected with "manifest has bad discard", by the check on that record.  No group law is
+    needed: `D` must be Σ removed − Σ added recomputed from the names, whatever `O` says. -/
+theorem compensating_pair_rejected (env : Env G) (acc : G) (e0 : Edit) (a b : List Edit) (e e' : Edit) (acc' : G)
+    (hok : verifyFragment env acc (e0 :: (a ++ e :: b)) = .ok acc') (hs : SameButOD env e e')
+    (I D O' D' : G) (hI : info env e 73 = .ok I) (hD : info env e 68 = .ok D)
+    (hO' : info env e' 79 = .ok O') (hD' : info env e' 68 = .ok D')
+    (hbal : I = env.ops.add O' D') (hne : D' ≠ D) :
+    verifyFragment env acc (e0 :: (a ++ e' :: b)) = .error .discard :=
+  Blue.VerifyOne.compensating_pair_rejected env acc e0 a b e e' acc' hok hs I D O' D' hI hD hO' hD' hbal hne
+
+/-- **`gc_discard_erased_rejected`**: a record with `D ≠ 0` (a garbage collection) rewritten to
+    `D' = 0`, `O' = I` does not pass as a compaction -/
+theorem gc_discard_erased_rejected (env : Env G) (he : env.ops = opsOf g) (acc : G) (e0 : Edit)
+    (a b : List Edit) (e e' : Edit) (acc' : G)
+    (hok : verifyFragment env acc (e0 :: (a ++ e :: b)) = .ok acc') (hs : SameButOD env e e')
+    (I D : G) (hI : info env e 73 = .ok I) (hD : info env e 68 = .ok D) (hD0 : D ≠ env.ops.zero)
+    (hO' : info env e' 79 = .ok I) (hD' : info env e' 68 = .ok env.ops.zero) :
+    verifyFragment env acc (e0 :: (a ++ e' :: b)) = .error .discard :=
+  Blue.VerifyOne.gc_discard_erased_rejected g env he acc e0 a b e e' acc' hok hs I D hI hD hD0 hO' hD'
+
+/-- non-vacuity of the two, over the integers: the honest collection followed by an ingest
+    verifies; `D, O` shifted by `+1 / −1`, and `D := 0`, `O := I`, are rejected on the discard -/
+theorem pairs_rejected_example :
+    let X := [a5, a2, b3, c1]
+    let Y := [a5, b3, c1]
+    let sx := setsumOf (opsOf intGrp) exH X
+    let sy := setsumOf (opsOf intGrp) exH Y
+    (verifyFragment (exEnv [X, Y, [b1]] false) 0 (exFragThen X Y [b1] sy (sx - sy))).toOption
+        = some (sy + setsumOf (opsOf intGrp) exH [b1])
+    ∧ verifyFragment (exEnv [X, Y, [b1]] false) 0 (exFragThen X Y [b1] (sy - 1) (sx - sy + 1)) = .error .discard
+    ∧ verifyFragment (exEnv [X, Y, [b1]] false) 0 (exFragThen X Y [b1] sx 0) = .error .discard :=
+  ex_pairs_rejected
+
+/-- **the discard comparison moved inside the garbage-collection block** (`finishEditGuarded`):
+    the erased collection and the shifted ingest are accepted with the honest accumulator; the
+    checks in the order of the code reject the same fragments -/
+theorem guarded_check_accepts_pair :
+    let X := [a5, a2, b3, c1]
+    let Y := [a5, b3, c1]
+    let sx := setsumOf (opsOf intGrp) exH X
+    let sy := setsumOf (opsOf intGrp) exH Y
+    (verifyFragmentWith finishEditGuarded (exEnv [X, Y, [b1]] false) 0 (exFragThen X Y [b1] sx 0)).toOption
+        = some (sy + setsumOf (opsOf intGrp) exH [b1])
+    ∧ (verifyFragmentWith finishEditGuarded (exEnv [X, Y, [b1]] false) 0
+        [ Blue.VerifyOne.mkEdit exName 0 0 0 [] [],
+          Blue.VerifyOne.mkEdit exName 0 (sx - 1) (-sx + 1) [] [sx],
+          Blue.VerifyOne.mkEdit exName sx sy (sx - sy) [sx] [sy] ]).toOption = some sy
+    ∧ verifyFragment (exEnv [X, Y, [b1]] false) 0
+        [ Blue.VerifyOne.mkEdit exName 0 0 0 [] [],
+          Blue.VerifyOne.mkEdit exName 0 (sx - 1) (-sx + 1) [] [sx],
+          Blue.VerifyOne.mkEdit exName sx sy (sx - sy) [sx] [sy] ] = .error .discard :=
+  Blue.VerifyOne.guarded_check_accepts_pair
+
+/-- `verifyFragmentWith` run with the checks of the code is `verify_one` -/
+theorem guarded_model_is_verify_one_otherwise (env : Env G) (acc : G) (es : List Edit) :
+    verifyFragmentWith finishEdit env acc es = verifyFragment env acc es :=
+  verifyFragmentWith_finishEdit env acc es
+
 end Contents
 
 end Blue.Props.C04
@@ -398,3 +502,12 @@ end Blue.Props.C04
 #print axioms Blue.Props.C04.gc_tail_loss_accepted
 #print axioms Blue.Props.C04.gc_retention_up_to_last_output
 #print axioms Blue.Props.C04.hexdigest_sign_same_value
+#print axioms Blue.Props.C04.recover_chains
+#print axioms Blue.Props.C04.recover_output
+#print axioms Blue.Props.C04.hoisted_recovery_rejected
+#print axioms Blue.Props.C04.recovery_and_discard_check_from_source
+#print axioms Blue.Props.C04.compensating_pair_rejected
+#print axioms Blue.Props.C04.gc_discard_erased_rejected
+#print axioms Blue.Props.C04.pairs_rejected_example
+#print axioms Blue.Props.C04.guarded_check_accepts_pair
+#print axioms Blue.Props.C04.guarded_model_is_verify_one_otherwise
